@@ -146,3 +146,66 @@ Example ex_stale_answer_violates :
              [OOut (Dest B_POST (Some "https://old-host.sp.example.org/acs/post")); OReloaded true;
               OOut (Dest B_POST (Some "https://old-host.sp.example.org/acs/post"))] = false.
 Proof. vm_compute. reflexivity. Qed.
+
+(* ---------------------------------------------------------------- the served metadata (round 7) *)
+Lemma describes_has_entity e s : describes e s = has_entity e s.
+Proof.
+  unfold describes, has_entity. induction s as [|[k v] r IH]; [reflexivity|].
+  cbn [existsb assoc fst]. rewrite IH. rewrite String.eqb_sym. destruct (String.eqb e k); reflexivity.
+Qed.
+
+Lemma find_describes e m : find (describes e) m = first_with e m.
+Proof.
+  induction m as [|s r IH]; [reflexivity|]. cbn [find first_with]. rewrite describes_has_entity, IH. reflexivity.
+Qed.
+
+Lemma spec_served_b_iff m o out : spec_served_b m o out = true <-> spec_served m o out.
+Proof.
+  unfold spec_served_b, spec_served. destruct (target_of o); [apply spec_b_iff|]. split; intros _; [exact I|reflexivity].
+Qed.
+
+(* the model answers from the served metadata: every outcome of an operation aimed at a named entity satisfies
+   the spec against the ONE source that serves that entity *)
+Lemma served_sound m o : spec_served m o (run_op m o).
+Proof.
+  unfold spec_served. destruct (target_of o) as [e|] eqn:Et; [|exact I].
+  unfold served. rewrite find_describes. destruct (first_with e m) as [s|] eqn:Ef.
+  - apply (first_source_sound m s o e); [|exact Ef].
+    destruct o; cbn [target_of op_target] in *; exact Et.
+  - apply destinations_from_metadata.
+Qed.
+
+Lemma served_seq_b_iff steps : forall st obs, served_seq_b st steps obs = true <-> served_seq st steps obs.
+Proof.
+  induction steps as [|s r IH]; intros st obs.
+  - destruct obs; cbn; split; intros H; try reflexivity; try exact I; try discriminate; contradiction.
+  - destruct s as [k o|k m|k]; destruct obs as [|[out|ok] r']; cbn [served_seq_b served_seq];
+      try (split; intros H; [discriminate|contradiction]).
+    + rewrite andb_true_iff, spec_served_b_iff, IH. reflexivity.
+    + apply IH.
+    + apply IH.
+Qed.
+
+Lemma sequences_served steps : forall st, served_seq st steps (run_seq st steps).
+Proof.
+  induction steps as [|s r IH]; intros st; [exact I|].
+  destruct s as [k o|k m|k]; cbn [run_seq served_seq].
+  - split; [apply served_sound|apply IH].
+  - apply IH.
+  - apply IH.
+Qed.
+
+(* a role or endpoint that only a shadowed, same-entityID descriptor of a later source has is never a destination:
+   if the source that serves the requester does not give it the SP role, an AuthnRequest is refused *)
+Lemma shadowed_role_refused m s etype prefs req bindings descr :
+  first_with (requester req) m = Some s -> rq_class req = MAuthn -> bindings <> [B_SOAP] ->
+  (forall ep, ~ publishes [s] (requester req) R_SP S_ACS ep) ->
+  no_destination (response_args m etype prefs req bindings descr).
+Proof.
+  intros Hf Hc Hb Hno.
+  pose proof (first_source_sound m s (OpAnswer etype prefs req bindings descr) (requester req) eq_refl Hf) as H.
+  cbn [run_op spec] in H. destruct (response_args m etype prefs req bindings descr) as [b [d|]| | | | |e];
+    cbn [no_destination answer_spec] in *; try exact I; try contradiction.
+  destruct H as [[H1 _]|[svc [typ [ep [Hs [Hp _]]]]]]; [contradiction|].
+  rewrite Hc in Hs. cbn [answer_service] in Hs. inversion Hs. subst svc typ. exact (Hno ep Hp).
+Qed.
